@@ -24,6 +24,9 @@ func init() {
 			runC04Strip(c, "C13-STRIP")
 			runC13IfaceCompare(c)
 			runFieldIdentity(c, "C13-FIELDIDX")
+			runSrcSink(c, "C13-NILTYPE")
+			runErrPair(c, "C13-ERRPAIR")
+			runInitGlobal(c, "C13-INITGLOBAL")
 			base(c, "STATE", "ALIAS")
 		},
 	})
